@@ -504,7 +504,22 @@ fn builtin_spellings(ctx: &Ctx, runs: &AtomicU64, groups: &AtomicU64, samples: &
 /// must have identical output, status and effect.
 fn bespoke_spellings(ctx: &Ctx, runs: &AtomicU64) {
     let u = usage("pwd").unwrap();
-    let groups: Vec<Vec<&str>> = vec![
+    // kill: every way of naming a signal x every way of passing it (documented in kill.md:
+    // -s/-n with a separate or attached argument, the obsolete -SIGNAL form; names in any case,
+    // with or without the SIG prefix, or the number)
+    let mut kill_groups: Vec<Vec<String>> = vec![];
+    for (prelude, name, num) in [("trap '' TERM", "TERM", "15"), ("trap 'p T' USR1", "USR1", "124"), ("trap 'p T' INT", "INT", "2")] {
+        let names = [name.to_string(), name.to_lowercase(), format!("SIG{name}"), format!("sig{}", name.to_lowercase()), format!("Sig{}", name.to_lowercase()), num.to_string()];
+        let mut g = vec![];
+        for n in &names {
+            for form in ["-s {}", "-s{}", "-n {}", "-n{}", "-{}", "-s {} --", "-n{} --"] {
+                g.push(format!("{prelude}; kill {} $$", form.replace("{}", n)));
+            }
+        }
+        kill_groups.push(g);
+    }
+    let kill_groups_ref: Vec<Vec<&str>> = kill_groups.iter().map(|g| g.iter().map(|s| s.as_str()).collect()).collect();
+    let mut groups: Vec<Vec<&str>> = vec![
         vec!["set -e -u", "set -eu", "set -o errexit -o nounset", "set --errexit --nounset", "set -e -o nounset", "set -eu --", "set -ue"],
         vec!["set -C x y", "set -C -- x y", "set -o noclobber x y", "set --noclobber x y", "set --noclob x y", "set -C - x y"],
         vec!["set -e; set +e", "set -e; set +o errexit", "set -e; set ++errexit"],
@@ -514,8 +529,11 @@ fn bespoke_spellings(ctx: &Ctx, runs: &AtomicU64) {
              "trap '' TERM; kill -s term $$", "trap '' TERM; kill -s SIGTERM $$", "trap '' TERM; kill $$", "trap '' TERM; kill -s TERM -- $$"],
         vec!["trap 'p T' USR1; kill -s USR1 $$", "trap 'p T' USR1; kill -USR1 $$", "trap 'p T' USR1; kill -s usr1 $$", "trap 'p T' USR1; kill -sUSR1 $$"],
         vec!["kill -l 15", "kill -l -- 15", "kill -l TERM", "kill -l 399"],
-        vec!["kill -s 0 $$", "kill -0 $$", "kill -n 0 $$"],
+        vec!["kill -s 0 $$", "kill -0 $$", "kill -n 0 $$", "kill -s0 $$", "kill -n0 $$"],
+        vec!["kill -l", "kill -l --"],
+        vec!["kill -v 15", "kill -v TERM", "kill -lv 15", "kill -vl TERM", "kill -l -v 15"],
     ];
+    groups.extend(kill_groups_ref);
     for g in groups {
         let base = run_invocation(&u, g[0]);
         runs.fetch_add(1, Relaxed);
